@@ -1068,8 +1068,9 @@ theorem zTXt_roundtrip_text (z : ZCodec) (hz : z.Ok) (c : ZTXt) (body : Bytes)
         | ok raw => simp only [OptC.compress, latin1Coding, he]
   exact OptC.getText_compress hz latin1Coding_ok c.text hok
 
-/-- the text payload `ITXtChunk::encode` puts after the third separator; `none` = the stored
-compressed text does not inflate (`CompressionError`) -/
+/-- the text payload `ITXtChunk::encode` puts after the third separator; `none` = a stored
+compressed text that has to be written uncompressed does not inflate (`CompressionError`) or
+inflates to something that is not UTF-8 (`Unrepresentable`) -/
 def ITXt.payload (z : ZCodec) (c : ITXt) : Option Bytes :=
   if c.compressed then
     match c.text with
@@ -1077,8 +1078,35 @@ def ITXt.payload (z : ZCodec) (c : ITXt) : Option Bytes :=
     | .uncompressed s => some (z.compress (utf8Encode s))
   else
     match c.text with
-    | .compressed v => z.decompress v
+    | .compressed v =>
+      match z.decompress v with
+      | some raw => if (utf8Decode raw).isSome then some raw else none
+      | none => none
     | .uncompressed s => some (utf8Encode s)
+
+/-- the error reported when there is no payload -/
+def ITXt.payloadErr (z : ZCodec) (c : ITXt) : TextEncErr :=
+  match c.text with
+  | .compressed v => (match z.decompress v with | some _ => .unrepresentable | none => .compressionError)
+  | .uncompressed _ => .compressionError
+
+/-- a compressed payload written uncompressed: it inflated, and to valid UTF-8 -/
+theorem ITXt.payload_inflated (z : ZCodec) (c : ITXt) (v p : Bytes) (hc : c.compressed = false)
+    (hs : c.text = .compressed v) (hp : c.payload z = some p) :
+    z.decompress v = some p ∧ ∃ s, utf8Decode p = some s := by
+  simp only [ITXt.payload, hc, hs, Bool.false_eq_true, if_false] at hp
+  cases hd : z.decompress v with
+  | none => rw [hd] at hp; cases hp
+  | some raw =>
+    rw [hd] at hp
+    simp only at hp
+    cases hu : utf8Decode raw with
+    | none => rw [hu] at hp; simp at hp
+    | some s =>
+      rw [hu] at hp
+      simp only [Option.isSome_some, if_true, Option.some.injEq] at hp
+      subst hp
+      exact ⟨rfl, s, hu⟩
 
 /-- `ITXtChunk::encode` in one piece: the specification's layout around `ITXt.payload` -/
 theorem ITXt.encodeBody_eq (z : ZCodec) (c : ITXt) :
@@ -1089,10 +1117,10 @@ theorem ITXt.encodeBody_eq (z : ZCodec) (c : ITXt) :
         if !isAsciiStr c.languageTag || strHasNul c.languageTag then .error .unrepresentable else
         if strHasNul c.translatedKeyword then .error .unrepresentable else
         match c.payload z with
-        | none => .error .compressionError
+        | none => .error (c.payloadErr z)
         | some p => .ok (data ++ 0 :: (if c.compressed then 1 else 0) :: 0 ::
             (utf8Encode c.languageTag ++ 0 :: (utf8Encode c.translatedKeyword ++ 0 :: p))) := by
-  unfold ITXt.encodeBody ITXt.payload
+  unfold ITXt.encodeBody ITXt.payload ITXt.payloadErr
   cases encodeKeyword c.keyword with
   | error e => rfl
   | ok data =>
@@ -1116,7 +1144,9 @@ theorem ITXt.encodeBody_eq (z : ZCodec) (c : ITXt) :
             simp only [Bool.false_eq_true, if_false]
             cases z.decompress v with
             | none => rfl
-            | some raw => simp
+            | some raw =>
+              simp only
+              cases (utf8Decode raw).isSome <;> simp
           | uncompressed s => simp
 
 /-- what an accepted iTXt chunk looks like: keyword accepted, language tag ASCII without U+0000,
@@ -1210,28 +1240,48 @@ theorem iTXt_roundtrip_compressed (z : ZCodec) (c : ITXt) (body : Bytes)
     simp only [Option.some.injEq] at hp; subst hp
     simp only [ITXt.compress, OptC.compress, utf8Coding]
 
-/-- iTXt with `compressed = false` but a text still in the compressed state: the payload is
-inflated and written as is; it is read back as plain text when it is valid UTF-8 and refused
-otherwise -/
+/-- iTXt with `compressed = false` but a text still in the compressed state: the chunk is accepted
+only when the payload inflates to valid UTF-8; that text is then written and read back as plain text -/
 theorem iTXt_roundtrip_inflated (z : ZCodec) (c : ITXt) (v body : Bytes)
     (hc : c.compressed = false) (hs : c.text = .compressed v) (h : c.encodeBody z = .ok body) :
-    ∃ raw, z.decompress v = some raw ∧
-      parseITXt body = match utf8Decode raw with
-        | none => .err .unrepresentable
-        | some s => .ok { c with text := .uncompressed s } := by
+    ∃ raw s, z.decompress v = some raw ∧ utf8Decode raw = some s ∧
+      parseITXt body = .ok { c with text := .uncompressed s } := by
   obtain ⟨data, p, hk, ha, hp, hparse⟩ := iTXt_encode_parse z c body h
+  obtain ⟨hd, s, hu⟩ := ITXt.payload_inflated z c v p hc hs hp
+  refine ⟨p, s, hd, hu, ?_⟩
   rw [hparse, ITXt.decode_of_fields c data p hk ha]
-  simp only [ITXt.payload, hc, hs, Bool.false_eq_true, if_false] at hp ⊢
-  refine ⟨p, hp, ?_⟩
   obtain ⟨kw, cf, lt, tk, tx⟩ := c
   simp only at hc; subst hc
-  cases utf8Decode p <;> rfl
+  simp only [Bool.false_eq_true, if_false, hu]
+
+/-- … and a payload that does not inflate, or inflates to something that is not UTF-8, is refused
+(`CompressionError` / `Unrepresentable`) -/
+theorem iTXt_inflated_refused (z : ZCodec) (c : ITXt) (v : Bytes) (data : Bytes)
+    (hk : encodeKeyword c.keyword = .ok data) (hl : isAsciiStr c.languageTag = true)
+    (hln : NulFree c.languageTag) (htn : NulFree c.translatedKeyword)
+    (hc : c.compressed = false) (hs : c.text = .compressed v) :
+    (z.decompress v = none → c.encodeBody z = .error .compressionError) ∧
+    (∀ raw, z.decompress v = some raw → utf8Decode raw = none → c.encodeBody z = .error .unrepresentable) := by
+  have hpre : c.encodeBody z = match c.payload z with
+      | none => .error (c.payloadErr z)
+      | some p => .ok (data ++ 0 :: (if c.compressed then 1 else 0) :: 0 ::
+          (utf8Encode c.languageTag ++ 0 :: (utf8Encode c.translatedKeyword ++ 0 :: p))) := by
+    rw [ITXt.encodeBody_eq, hk]
+    simp only [hl, (strHasNul_eq_false _).mpr hln, (strHasNul_eq_false _).mpr htn, Bool.not_true, Bool.or_self,
+      Bool.false_eq_true, if_false]
+  constructor
+  · intro hd
+    rw [hpre]
+    simp only [ITXt.payload, ITXt.payloadErr, hc, hs, hd, Bool.false_eq_true, if_false]
+  · intro raw hd hu
+    rw [hpre]
+    simp only [ITXt.payload, ITXt.payloadErr, hc, hs, hd, hu, Bool.false_eq_true, if_false, Option.isSome_none]
 
 /-- iTXt, all three cases in one statement at the level of what a reader of the chunk observes:
-whenever the chunk holds a text, what `encode` writes is read back as a chunk with the same keyword,
-flag, language tag, translated keyword and text -/
+what `encode` writes is read back as a chunk with the same keyword, flag, language tag, translated
+keyword and text -/
 theorem iTXt_roundtrip_text (z : ZCodec) (hz : z.Ok) (c : ITXt) (body : Bytes)
-    (h : c.encodeBody z = .ok body) (ht : c.compressed = false → ∃ s, c.getText z = .ok s) :
+    (h : c.encodeBody z = .ok body) :
     ∃ c', parseITXt body = .ok c' ∧ c'.keyword = c.keyword ∧ c'.compressed = c.compressed ∧
       c'.languageTag = c.languageTag ∧ c'.translatedKeyword = c.translatedKeyword ∧
       c'.getText z = c.getText z := by
@@ -1249,18 +1299,9 @@ theorem iTXt_roundtrip_text (z : ZCodec) (hz : z.Ok) (c : ITXt) (body : Bytes)
     | uncompressed s =>
       exact ⟨c, iTXt_roundtrip_plain z c s body hc hs h, rfl, hc.symm ▸ rfl, rfl, rfl, rfl⟩
     | compressed v =>
-      obtain ⟨raw, hd, hp⟩ := iTXt_roundtrip_inflated z c v body hc hs h
-      obtain ⟨s, hg⟩ := ht hc
-      have hg' := hg
-      simp only [ITXt.getText, OptC.getText, hs, hd, utf8Coding] at hg'
-      cases hu : utf8Decode raw with
-      | none => rw [hu] at hg'; cases hg'
-      | some s' =>
-        rw [hu] at hp hg'
-        simp only [Except.ok.injEq] at hg'
-        subst hg'
-        refine ⟨_, hp, rfl, by simp only [hc], rfl, rfl, ?_⟩
-        rw [hg]; rfl
+      obtain ⟨raw, s, hd, hu, hp⟩ := iTXt_roundtrip_inflated z c v body hc hs h
+      refine ⟨_, hp, rfl, by simp only [hc], rfl, rfl, ?_⟩
+      simp only [ITXt.getText, OptC.getText, hs, hd, hu, utf8Coding]
 
 /-- NUL in a keyword-like field ⇒ `encode` answers with an error (nothing is written) -/
 theorem encode_refuses_nul :
